@@ -11,6 +11,7 @@ U10C = ("u10_typed_trace", {"which": "cache"})
 
 U5 = ("u5_parser", {})
 U8 = ("u8_writer_tail", {})
+U9 = ("u9_selftest", {})
 U3 = ("u3_interpretation", {})
 U4 = ("u4_cache_parse", {})
 U7 = ("u7_metadata", {})
@@ -115,7 +116,7 @@ PROPS = {
     },
     "C09": {
         "title": "Written cache files conform to the documented layout and ordering invariants",
-        "units": [U8],
+        "units": [U8, U9],
         "kani": ["k1_header_layout", "k1_class_layout", "k1_member_layout", "k2_format_constants"],
         "technique": "Verus proof that the writer tail emits exactly canonical() = the documented v1 layout (header, padded sections, tiling class ranges); Kani (complete, loop-free) for record byte layouts and constants",
         "level_text": "The part of ProguardCache::write after the record-collection loop is proved to deliver exactly canonical(classes, strings): "
@@ -129,7 +130,8 @@ PROPS = {
                     "watto::StringTable::into_bytes / insert (string section contents, interning)",
                     "Pod::as_bytes byte images are abstract in the Verus proof; their layout is what Kani K1 proves"],
         "not_decided": ["strict sortedness of the class section and (name, params) order of the by-params section (produced inside the unreachable collection loop)",
-                        "string section validity (watto)", "ProguardCache::test() never panics on writer output"],
+                        "string section validity (watto)",
+                        "ProguardCache::test() is proved panic-free on every cache satisfying wf_for_selftest (tiling member ranges + readable strings); that parse(write(m)) satisfies it rests on the assumed Pod cast model (as_bytes / slice_from_prefix inverse) and on watto's string table"],
         "design_ref": "DESIGN.md 5/C09",
     },
     "C15": {
@@ -199,7 +201,7 @@ PROPS = {
     },
     "C13": {
         "title": "No mapping bytes and no query can make the library panic or overflow",
-        "units": [U2S, U5, U7, U10M, U3, U8],
+        "units": [U2S, U5, U7, U10M, U3, U8, U9],
         "kani": ["k3_java_base_types"],
         "technique": "Verus implicit obligations on the mapper reader with NO precondition on entry values",
         "level_text": "The mapper's reader functions are verified with arbitrary usize entry values and any frame: no overflow, no out-of-bounds, termination.",
